@@ -289,20 +289,53 @@ def canon(x):
 
 def parallel_map(fn, items, procs):
     """Run fn over items in forked workers (fn and items need not pickle:
-    results must).  Order preserved."""
+    results must).  Order preserved.  A worker that dies (killed by a signal, os._exit, an exception that is not an
+    Exception escaping from a signal handler) must not hang the check: the items it was working on are re-run one per
+    process, and an item whose process dies again is reported as a crash observation."""
     if procs <= 1 or len(items) < 64:
         return [fn(x) for x in items]
     import multiprocessing as mp
+    from concurrent.futures import ProcessPoolExecutor
 
     ctx = mp.get_context("fork")
     global _PM_FN, _PM_ITEMS
     _PM_FN, _PM_ITEMS = fn, items
-    with ctx.Pool(procs) as pool:
-        return pool.map(_pm_call, range(len(items)), chunksize=max(1, len(items) // (procs * 8)))
+    n = len(items)
+    results = [None] * n
+    size = max(1, n // (procs * 8))
+    todo = [list(range(i, min(n, i + size))) for i in range(0, n, size)]
+    while todo:
+        failed = []
+        ex = ProcessPoolExecutor(max_workers=procs, mp_context=ctx)
+        futs = [(ex.submit(_pm_chunk, ch), ch) for ch in todo]
+        for f, ch in futs:
+            try:
+                for i, r in zip(ch, f.result()):
+                    results[i] = r
+            except BaseException:  # BrokenProcessPool (a worker died) or an exception escaping fn in the worker
+                failed.append(ch)
+        ex.shutdown(wait=False, cancel_futures=True)
+        if not failed:
+            break
+        if all(len(ch) == 1 for ch in failed):
+            for (i,) in failed:  # one fresh process per item: the one that dies again is the culprit
+                ex1 = ProcessPoolExecutor(max_workers=1, mp_context=ctx)
+                try:
+                    results[i] = ex1.submit(_pm_chunk, [i]).result()[0]
+                except BaseException as e:
+                    results[i] = {"__crash__": f"the worker process running this case died or raised outside Exception ({type(e).__name__})"}
+                ex1.shutdown(wait=False, cancel_futures=True)
+            break
+        todo = [[i] for ch in failed for i in ch]
+    return results
 
 
 def _pm_call(i):
     return _PM_FN(_PM_ITEMS[i])
+
+
+def _pm_chunk(idx):
+    return [_PM_FN(_PM_ITEMS[i]) for i in idx]
 
 
 # --------------------------------------------------------------------------
@@ -400,6 +433,10 @@ def _impl_safe(chk, case, factor=1):
         return {"__crash__": "MemoryError: the implementation exhausted the address-space limit on this case"}
     except Exception as e:  # harness bug or unexpected impl crash: keep it visible
         return {"__crash__": f"{type(e).__name__}: {e}", "tb": traceback.format_exc()[-1500:]}
+    except BaseException as e:  # e.g. a time-limit exception of a property module raised outside its own try block
+        if type(e) in (KeyboardInterrupt, SystemExit):
+            raise
+        return {"__crash__": f"{type(e).__name__} (not an Exception) escaped from the case", "tb": traceback.format_exc()[-1500:]}
     finally:
         signal.alarm(0)
         signal.signal(signal.SIGALRM, old)
